@@ -363,6 +363,14 @@ Theorem C15_bin_bound_clamps : forall (p : bool) (l w x : R) (n : Z), (0 < w)%R 
 Proof. exact bin_bound_spec. Qed.
 Print Assumptions C15_bin_bound_clamps.
 
+(* ... and in a periodic dimension it is the bin that contains the value modulo the period (any number of periods away) *)
+Theorem C15_bin_bound_periodic_wraps : forall (l w x : R) (n : Z), (0 < w)%R -> (0 < n)%Z ->
+  value_to_bin_bound Rops true l w n x = (value_to_bin Rops l w x mod n)%Z /\
+  exists k : Z, (l + IZR (value_to_bin_bound Rops true l w n x) * w <= x - IZR k * (IZR n * w)
+                 < l + (IZR (value_to_bin_bound Rops true l w n x) + 1) * w)%R.
+Proof. exact bin_bound_periodic. Qed.
+Print Assumptions C15_bin_bound_periodic_wraps.
+
 (* value_to_bin_scalar_fraction: the position inside the bin, x = lower + (bin + fraction) * width *)
 Theorem C15_bin_fraction : forall (l w x : R), (0 < w)%R ->
   (0 <= bin_fraction Rops l w x < 1)%R /\
